@@ -4,6 +4,7 @@ import (
 	"fmt"
 	"sort"
 	"strings"
+	"sync/atomic"
 
 	"github.com/ja7ad/otp"
 	"github.com/ja7ad/otp/verifharness/ev"
@@ -116,6 +117,27 @@ func malformedSuites() []string {
 
 func c15(r *ev.Run) {
 	r.Scenario("suite-fidelity", func(raw []byte) (string, string) { return suiteFidelity(unjson[c15Case](raw)) })
+	r.Scenario("concurrent-parse", func(raw []byte) (string, string) {
+		// replay = the same sweep on a small sample
+		names := []string{"OCRA-1:HOTP-SHA1-7:C", "OCRA-1:HOTP-SHA256-8:QN10-PSHA1", "OCRA-1:HOTP-SHA512-6:C-QN08-S064-T5M", "OCRA-1:HOTP-SHA1-9:QN08-T30S"}
+		alone := make([]string, len(names))
+		for i, n := range names {
+			alone[i], _ = suiteFidelity(c15Case{n, "grammar"})
+		}
+		var mism atomic.Int64
+		ev.Par(16, func(w int) {
+			for rep := 0; rep < 20000; rep++ {
+				k := (w + rep) % len(names)
+				if obs, _ := suiteFidelity(c15Case{names[k], "grammar"}); obs != alone[k] {
+					mism.Add(1)
+				}
+			}
+		})
+		if mism.Load() > 0 {
+			return "mismatches", "a suite string parsed concurrently with others gives another configuration"
+		}
+		return "ok", ""
+	})
 	r.Scenario("registry-stable", func(raw []byte) (string, string) { return registryStable() })
 	if ReplayOnly {
 		return
@@ -148,6 +170,20 @@ func c15(r *ev.Run) {
 			r.Fail("suite-fidelity", "registered "+n+": "+bad, c, bad, obs)
 		}
 		r.DistinctS(obs)
+	}
+	// other letter-case spellings of the advertised names go through the parser: same meaning (or rejected)
+	for i, n := range names {
+		for _, v := range []string{strings.ToLower(n), strings.ToUpper(n[:7]) + strings.ToLower(n[7:]), caseMask(n, 0x5555555555555555<<uint(i%2))} {
+			if v == n {
+				continue
+			}
+			c := c15Case{v, "grammar"}
+			obs, bad := suiteFidelity(c)
+			n1++
+			if _, ok := ref.ParseSuite(v); ok && bad != "" {
+				r.Fail("suite-fidelity", "case-variant "+v+": "+bad, c, bad, obs)
+			}
+		}
 	}
 	r.Set("advertised_names", len(names))
 	// (2) the grammar
@@ -193,6 +229,36 @@ func c15(r *ev.Run) {
 	sort.Strings(after)
 	if strings.Join(after, ",") != strings.Join(names, ",") {
 		r.Fail("registry-stable", "advertised list changed during the run", c15Case{"", "registry"}, fmt.Sprint(len(names), " names"), fmt.Sprint(len(after), " names"))
+	}
+	// concurrent sweep (auxiliary to the scheduler-based C11): the same grammar strings parsed from 16 goroutines at once
+	// must give what they give alone
+	{
+		var sample []string
+		for i := 0; i < len(gs); i += len(gs)/400 + 1 {
+			sample = append(sample, gs[i])
+		}
+		alone := make([]string, len(sample))
+		for i, n := range sample {
+			alone[i], _ = suiteFidelity(c15Case{n, "grammar"})
+		}
+		var mism atomic.Int64
+		var first atomic.Value
+		ev.Par(16, func(w int) {
+			for rep := 0; rep < 30; rep++ {
+				for i := range sample {
+					k := (i*7 + w*13 + rep) % len(sample)
+					if obs, _ := suiteFidelity(c15Case{sample[k], "grammar"}); obs != alone[k] {
+						if mism.Add(1) == 1 {
+							first.Store(sample[k] + ": alone " + alone[k] + ", concurrently " + obs)
+						}
+					}
+				}
+			}
+		})
+		r.Eval(int64(16 * 30 * len(sample)))
+		if mism.Load() > 0 {
+			r.Fail("concurrent-parse", "a suite string parsed concurrently with others gives another configuration", c15Case{"", "concurrent"}, "the configuration it gives alone", fmt.Sprint(first.Load()))
+		}
 	}
 	// (3) malformed strings
 	verdicts := map[string]string{}
